@@ -14,6 +14,11 @@ Merge: items already listed keep their kind (`transcribed` when the key is absen
 longer executed are dropped.  The file is re-read immediately before it is written (other builders add transcribed items).
 The check must exit 0 (clean tree), otherwise the file is left alone.  The evidence / replays of these runs go to a scratch
 directory.  Refresh of the hashes alone (after a fix: commit): py/tools/pin_sources.py."""
+# the normalised-AST hash depends on the interpreter's ast.dump: always run under the interpreter ./check uses
+import os as _os, sys as _sys
+if _os.path.exists("/venv/bin/python") and _os.path.realpath(_sys.executable) != _os.path.realpath("/venv/bin/python"):
+    _os.execv("/venv/bin/python", ["/venv/bin/python"] + _sys.argv)
+
 import ast, json, os, shutil, subprocess, sys, tempfile
 from concurrent.futures import ThreadPoolExecutor
 sys.path.insert(0, os.path.join(os.path.dirname(os.path.abspath(__file__)), ".."))
